@@ -11,9 +11,18 @@ vstatic!(LAST_FIRST: AtomicUsize = AtomicUsize::new(usize::MAX));
 vstatic!(LAST_LEN: AtomicUsize = AtomicUsize::new(0));
 vstatic!(FAIL_AT: AtomicUsize = AtomicUsize::new(usize::MAX));
 vstatic!(WRITES_AFTER_FLUSH: AtomicUsize = AtomicUsize::new(0));
+vstatic!(SHORT: AtomicUsize = AtomicUsize::new(0));        // != 0: the writer accepts one byte per write() call
+vstatic!(ACCEPTED: AtomicUsize = AtomicUsize::new(0));     // bytes the writer has ACCEPTED so far
+vstatic!(ACC_HASH: AtomicUsize = AtomicUsize::new(0));     // rolling hash of the accepted bytes
 struct W;
 impl Write for W {
     fn write(&mut self, b: &[u8]) -> io::Result<usize> {
+        if SHORT.load(SeqCst) != 0 {
+            // a writer may take fewer bytes than offered (io::Write allows it): one byte per call
+            if b.is_empty() { return Ok(0); }
+            ACCEPTED.fetch_add(1, SeqCst); ACC_HASH.store(ACC_HASH.load(SeqCst).wrapping_mul(31).wrapping_add(b[0] as usize), SeqCst);
+            return Ok(1);
+        }
         let k = WRITES.fetch_add(1, SeqCst);
         if FLUSHES.load(SeqCst) > 0 { WRITES_AFTER_FLUSH.fetch_add(1, SeqCst); }
         LAST_LEN.store(b.len(), SeqCst);
@@ -56,6 +65,22 @@ fn c15_handle_recv_and_try_recv() {
         assert!(st.ok() == Some(want), "C15.handle.state_matches_message");
     }
     core::mem::forget(w);    // the worker's drop glue (crossbeam Receiver::drop over every channel flavour) is not under contract here
+}
+
+// a line is handed to the underlying writer WHOLE also when the writer accepts fewer bytes per call than offered - through
+// both entry points (the first line of a batch goes through handle_recv, every later one through handle_try_recv)
+#[kani::proof]
+#[kani::unwind(6)]
+#[kani::stub(core::fmt::Formatter::pad, pad_stub)]
+fn c15_handle_hands_the_whole_line_to_a_writer_that_accepts_one_byte_at_a_time() {
+    let mut w = worker();
+    SHORT.store(1, SeqCst);
+    let blocking: bool = nd();
+    let st = if blocking { let r: Result<Msg, RecvError> = Ok(Msg::Line(vec![7, 9])); w.handle_recv(&r) }
+             else { let r: Result<Msg, TryRecvError> = Ok(Msg::Line(vec![7, 9])); w.handle_try_recv(&r) };
+    assert!(st.ok() == Some(WorkerState::Continue), "C15.handle.short_writes.continue");
+    assert!(ACCEPTED.load(SeqCst) == 2 && ACC_HASH.load(SeqCst) == 7 * 31 + 9, "C15.handle.short_writes.the_whole_line_reaches_the_writer_in_order");
+    core::mem::forget(w);
 }
 
 macro_rules! work_body { ($n:expr) => {{
